@@ -131,11 +131,11 @@ Theorem C08_bundle_refuted :
   exists c o a, snd (negotiate c st_init o true) = AOk a /\ wfA (f_secs o) /\ v_bundle o a = false.
 Proof. exact bundle_refuted. Qed.
 
-(* DTLS setup: active or passive, compatible with the media-level value the offer uses (listed finding
-   F29 for session-level a=setup) *)
+(* DTLS setup: active or passive, compatible with the value the offer uses -- at media level, at session
+   level (finding F29, fixed by aa4c5b4) or both *)
 Theorem C08_setup : forall c s o changed a v,
   c_mode c = MWebRtc -> applied s changed ->
-  f_sess_setup o = None ->
+  (f_sess_setup o = None \/ f_sess_setup o = Some v) ->
   (forall sec, In sec (f_secs o) -> o_setup sec = None \/ o_setup sec = Some v) ->
   In v ["active"%string; "passive"%string; "actpass"%string] ->
   (s_role s = None \/ exists r, s_role s = Some r /\ setup_ok v (role_to_setup (Some r)) = true) ->
@@ -143,10 +143,12 @@ Theorem C08_setup : forall c s o changed a v,
   Forall2 (fun x sec => v_sec_setup (f_sess_setup o) sec x = true) (a_secs a) (f_secs o).
 Proof. exact setup_ok_thm. Qed.
 
-Theorem C08_setup_refuted :
-  exists c o a, snd (negotiate c st_init o true) = AOk a /\ wfA (f_secs o) /\
-                forall2b (fun sec x => v_sec_setup (f_sess_setup o) sec x) (f_secs o) (a_secs a) = false.
-Proof. exact setup_refuted. Qed.
+(* the former F29 witness: session-level a=setup:active is answered setup:passive *)
+Theorem C08_setup_session_level :
+  exists a, snd (negotiate cfg_default st_init f29_offer true) = AOk a /\
+            forall2b (fun sec x => v_sec_setup (f_sess_setup f29_offer) sec x) (f_secs f29_offer) (a_secs a) = true /\
+            Forall (fun x => a_setup x = Some "passive"%string) (a_secs a).
+Proof. exact setup_session_level_ok. Qed.
 
 (* RTX associations: only pairs the offer proposed for that section *)
 Theorem C08_rtx : forall c s o changed a,
@@ -197,14 +199,47 @@ Theorem C08_valid_answer_example :
             valid_answer good_offer a = true.
 Proof. exact valid_answer_example. Qed.
 
-(* offers without a=mid (legacy SIP), first negotiation of a fresh connection with any pre-added
-   transceivers: kinds, (empty) mids and directions follow the offer -- the matching loop of
-   set_remote_description and the matching of create_answer pick the same transceivers (lock-step);
-   the re-offer case is the listed finding F30 *)
+(* all structural facts of one processed round at once (kinds, mids, direction, RTX, rtcp-mux, and --
+   under the stated premises -- extmap and BUNDLE), and the same for the UNCHANGED re-offer: the stack only
+   replaces the stored description when a re-offer equals the stored one; sending the offer of a processed
+   round again is answered with the same guarantees *)
+Theorem C08_round_facts : forall c s o changed a,
+  wfA (f_secs o) -> inv_state s -> compat_state s o -> applied s changed ->
+  create_answer c (set_remote c s o changed) = AOk a -> round_facts c o a.
+Proof. exact round_facts_applied. Qed.
+
+Theorem C08_unchanged_round : forall c s o changed a,
+  wfA (f_secs o) -> inv_state s -> compat_state s o -> applied s changed ->
+  create_answer c (set_remote c (fst (negotiate c s o changed)) o false) = AOk a -> round_facts c o a.
+Proof. exact round_facts_unchanged. Qed.
+
+(* offers without a=mid (legacy SIP). midless_state: no transceiver has a mid yet (fresh connection with any
+   pre-added transceivers) or every transceiver carries the empty mid (what mid-less rounds leave behind when
+   no pre-added transceiver stayed unmatched). From such a state kinds, (empty) mids and directions follow
+   the offer: the matching loop of set_remote_description and the matching of create_answer pick the same
+   transceivers (lock-step). The excluded states -- bound transceivers mixed with spare mid-less ones -- are
+   exactly the listed finding F30. *)
 From RV Require Import Proofs.AnswerMidless.
+Theorem C08_midless_negotiation : forall c s o changed a,
+  wfB (f_secs o) -> midless_state s -> applied s changed ->
+  create_answer c (set_remote c s o changed) = AOk a -> midless_facts o a.
+Proof. exact midless_negotiation. Qed.
+
+Theorem C08_midless_unchanged : forall c s o changed a,
+  wfB (f_secs o) -> midless_state s -> applied s changed ->
+  create_answer c (set_remote c (fst (negotiate c s o changed)) o false) = AOk a -> midless_facts o a.
+Proof. exact midless_unchanged. Qed.
+
+(* first negotiation of a fresh connection with any pre-added transceivers *)
 Theorem C08_midless_first_negotiation : forall c pre o changed a,
   wfB (f_secs o) ->
-  create_answer c (set_remote c (fresh pre) o changed) = AOk a ->
-  Forall2 (fun x sec => a_kind x = o_kind sec /\ a_mid x = EmptyString /\ dir_compat (o_dir sec) (a_dir x) = true)
-          (a_secs a) (f_secs o).
+  create_answer c (set_remote c (fresh pre) o changed) = AOk a -> midless_facts o a.
 Proof. exact midless_first_fresh. Qed.
+
+(* every round (first offer and re-offers) of a connection without spare transceivers *)
+Theorem C08_midless_all_rounds : forall c rs s,
+  all_se (s_trx s) -> Forall (fun r => wfB (f_secs (fst r))) rs ->
+  Forall (fun x => let '(s', o, ch) := x in wfB (f_secs o) /\ midless_state s') (trace c s rs).
+Proof. exact midless_all_rounds. Qed.
+Theorem C08_midless_init : all_se (s_trx st_init).
+Proof. exact all_se_init. Qed.
